@@ -70,6 +70,54 @@ def generate(ex):
         raise ex.ExtractError("%s: u128::normalized_sqrt_rem: `const KBITS: u32 = u64::BITS / 2;` not found" % rel)
     consts.append(("sqrt_u128_KBITS", 32, "`const KBITS: u32 = u64::BITS / 2` in u128::normalized_sqrt_rem"))
 
+    # round 6: every shift amount / mask width / small multiplier of the two u128 steps, as written (an expression in
+    # KBITS, u64::BITS and literals), evaluated with the KBITS of that function.  One statement shape per line; fails closed.
+    E = r"([A-Za-z0-9_:+\-* ()]+?)"          # a shift-amount expression
+
+    def amount(expr, kbits, what):
+        toks = re.findall(r"KBITS|u64::BITS|\d+|[-+*()]", expr)
+        if "".join(toks) != expr.replace(" ", "") or not toks:
+            raise ex.ExtractError("%s: %s: shift amount `%s` is not an expression in KBITS / u64::BITS / literals" % (rel, what, expr))
+        v = eval("".join({"KBITS": str(kbits), "u64::BITS": "64"}.get(t, t) for t in toks), {"__builtins__": {}})
+        if not isinstance(v, int) or v < 0 or v > 128:
+            raise ex.ExtractError("%s: %s: shift amount `%s` = %r out of range" % (rel, what, expr, v))
+        return v
+
+    def stmt(body, kbits, pattern, names, what):
+        """`pattern` has one group E per name; the statement must occur exactly once (whitespace-insensitive)."""
+        flat = re.sub(r"\s+", " ", body)
+        rx = re.escape(pattern)
+        rx = rx.replace(re.escape("<E>"), E).replace(r"\ ", r" ?")
+        ms = re.findall(rx, flat)
+        if len(ms) != 1:
+            raise ex.ExtractError("%s: %s: expected exactly one `%s`, found %d" % (rel, what, pattern, len(ms)))
+        g = ms[0] if isinstance(ms[0], tuple) else (ms[0],)
+        for nm, expr in zip(names, g):
+            consts.append((nm, amount(expr.strip(), kbits, what), "`%s` (%s = `%s`) in %s" % (pattern, nm.split("_", 2)[2], expr.strip(), what)))
+
+    sq = impl_fn("u128", "normalized_sqrt_rem")
+    W = "u128::normalized_sqrt_rem"
+    stmt(sq, 32, "let (a, b) = (self >> <E>, self & u64::MAX as u128);", ["sqrt_u128_split"], W)
+    stmt(sq, 32, "let r0 = r1 << (<E>) | b >> (<E>);", ["sqrt_u128_r0_shl", "sqrt_u128_r0_shr"], W)
+    stmt(sq, 32, "let (mut q, mut u) = r0.div_rem(s1 as u64); if q >> <E> > 0 { q -= <E>; u += s1 as u64; }", ["sqrt_u128_q_shr", "sqrt_u128_q_dec"], W)
+    stmt(sq, 32, "let mut s = (s1 as u64) << <E> | q;", ["sqrt_u128_s_shl"], W)
+    stmt(sq, 32, "let r = (u << (<E>)) | (b & ((1 << (<E>)) - 1));", ["sqrt_u128_r_shl", "sqrt_u128_r_mask"], W)
+    stmt(sq, 32, "let mut c = (u >> (<E>)) as i8 - (r < q2) as i8;", ["sqrt_u128_c_shr"], W)
+    stmt(sq, 32, "(s, (c as u128) << <E> | r as u128)", ["sqrt_u128_c_shl"], W)
+    cb = impl_fn("u128", "normalized_cbrt_rem")
+    W = "u128::normalized_cbrt_rem"
+    stmt(cb, 22, "let (c1, r1) = if self.leading_zeros() > <E> {", ["cbrt_u128_lz_gt"], W)
+    stmt(cb, 22, "let a = (self >> <E>) as u64; let (mut c, _) = a.normalized_cbrt_rem(); c >>= <E>; (c, (a >> <E>) - (c as u64).pow(<E>))",
+         ["cbrt_u128_hi_shr_odd", "cbrt_u128_c1_shr", "cbrt_u128_a_shr", "cbrt_u128_c1_pow"], W)
+    stmt(cb, 22, "} else { let a = (self >> <E>) as u64; a.normalized_cbrt_rem() };", ["cbrt_u128_hi_shr"], W)
+    stmt(cb, 22, "let r0 = ((r1 as u128) << <E>) | (self >> (<E>) & ((1 << <E>) - 1));", ["cbrt_u128_r0_shl", "cbrt_u128_r0_shr", "cbrt_u128_r0_mask"], W)
+    stmt(cb, 22, "let (q, u) = r0.div_rem(<E> * (c1 as u128).pow(<E>));", ["cbrt_u128_d_mul", "cbrt_u128_d_pow"], W)
+    stmt(cb, 22, "let mut c = ((c1 as u64) << <E>) + (q as u64);", ["cbrt_u128_c_shl"], W)
+    stmt(cb, 22, "let t1 = (u << (<E>)) | (self & ((1 << (<E>)) - 1));", ["cbrt_u128_t1_shl", "cbrt_u128_t1_mask"], W)
+    stmt(cb, 22, "let t2 = (((<E> * (c1 as u128)) << <E>) + q) * q.pow(<E>);", ["cbrt_u128_t2_mul", "cbrt_u128_t2_shl", "cbrt_u128_t2_pow"], W)
+    stmt(cb, 22, "let mut r = t1 as i128 - t2 as i128; while r < 0 { r += <E> * (c as i128 - <E>) * c as i128 + <E>; c -= <E>; } (c, r as u128)",
+         ["cbrt_u128_loop_mul", "cbrt_u128_loop_sub", "cbrt_u128_loop_add", "cbrt_u128_loop_dec"], W)
+
     def lean_list(vals):
         rows = [", ".join("0x%02x" % v for v in vals[i:i + 16]) for i in range(0, len(vals), 16)]
         return "[\n  " + ",\n  ".join(rows) + "]"
